@@ -299,3 +299,5 @@ CHECKS["C17"]["text"] = CHECKS["C17"]["text"].replace("(full_remove_releases).",
 CHECKS["C18"]["text"] = CHECKS["C18"]["text"].replace("Tie: the FULL executable model", "Over the FULL model (every tape): sendCreateIfNew - the one place that synthesises a Create - delivers it exactly when the entry has not been seen, nothing else, and leaves the entry seen (create_iff_unseen); a second call delivers nothing (create_once_full); after the un-marking of a Remove it delivers again (remove_then_create_full); Add delivers nothing (add_reports_nothing); internal watches never follow links. Tie: the FULL executable model")
 
 CHECKS["C18"]["text"] = CHECKS["C18"]["text"].replace("internal watches never follow links.", "internal watches never follow links; dirChange as a whole delivers nothing but Creates for entries of the listing it read that had not been seen, whatever the environment answers (dir_change_reports_only_new).")
+
+CHECKS["C17"]["text"] = CHECKS["C17"]["text"].replace("(full_remove_releases);", "(full_remove_releases); Remove of a watched directory releases the internal watches of its entries (full_remove_dir_releases_entries);")
